@@ -69,7 +69,7 @@ def big_case(rng, country):
 
 
 def gen_cases(tier, rng, boost=1):
-    n = (150 if tier == "quick" else 16000) * boost
+    n = (150 if tier == "quick" else 10000) * boost
     cases = []
     for k in range(n):
         country = "ie" if k % 3 == 2 else "us"
@@ -84,6 +84,8 @@ def gen_cases(tier, rng, boost=1):
                 m["from"], m["to"] = 25000, None
             if k % 25 == 8:
                 m["from"], m["to"] = None, 10
+            if k % 10 == 3 and len(m["sched"]) == 1:       # one-entry schedule not keyed 1970 (legend method taken by value; F10 repaired)
+                m["sched"][0][0] = 2015
         cases.append({"multi": m, "generator": GEN[country]})
     return cases
 
